@@ -17,10 +17,24 @@ LEVEL = "proof"
 LEVEL_TEXT = ("Lean 4 theorems for all states of the per-target decision model: a target is marked successful (and a result is stored) "
               "only if its command returned exit 0, every declared output exists and every check holds in the post-state; a check that "
               "fails before the decision excludes the hit branch; checks still failing after execution fail the target and nothing is "
-              "stored. Regression witness for the old hit gate that ignored the pre-check. Tied by history correspondence with the real "
+              "stored. Lifted to whole builds from an ARBITRARY world (hence after any history): if a mode-all build over a well-formed order "
+              "succeeds, then in the workspace it leaves every declared output of every selected target exists and every check passes, and "
+              "each target either ran with exit 0 or was restored from a result naming exactly its declared outputs (success_post_build, "
+              "success_post_history); under load_outputs=minimal the build succeeds iff the mode-all build of the lock-step universe does, "
+              "and every declared output is in the workspace with the same bytes or restorable from the cache with all blobs present "
+              "(success_post_minimal). Regression witness for the old hit gate that ignored the pre-check. Tied by history correspondence with the real "
               "CLI (real exit codes, real 300 ms timeouts against `sleep 3`).")
 LEVEL_NOTE = ("Timeouts are real time on the real side (300 ms limit vs 3 s sleep) and a behaviour flag in the model. "
-              "A declared output that the command does not write but that is present from earlier counts as existing (as in the code).")
+              "A declared output that the command does not write but that is present from earlier counts as existing (as in the code). "
+              "Extra hypotheses, named in the statements: ChecksOffOutputs / WF.checksOff — the files an output check inspects are not "
+              "declared outputs of a selected target (on the hit path the pre-check reads the pre-restore workspace; `test -s <own output>` is "
+              "outside the theorems and inside the generators: family depchecks checks a dependency's output); checks are modelled as "
+              "'file exists [with content]', the family the generators use (test -f / cat + expected_output in several shell forms), not "
+              "arbitrary shell; timeout, non-zero exit and failure to start are all exit0 = false of the abstract command; a failed command "
+              "leaves the workspace untouched in the model (generated failing commands fail before their first write); still_failing_fails "
+              "needs the check to fail before as well (the other case is the contrapositive of success_post). 'fails the build' is C05. The "
+              "build-level theorems need Good (commands hermetic and complete) for the frame of later steps; success_post_minimal needs "
+              "C15's hypotheses (well-formed builds, no lost blobs).")
 TECHNIQUE = "Lean 4 proof over an executable model + history correspondence with the real CLI + postcondition oracles"
 OBLIGATIONS = [
     "Grog.C14.success_post",
@@ -29,14 +43,17 @@ OBLIGATIONS = [
     "Grog.C14.failing_check_executes",
     "Grog.C14.still_failing_fails",
     "Grog.C14.old_gate_witness",
+    "Grog.C14.success_post_build",
+    "Grog.C14.success_post_history",
+    "Grog.C14.success_post_minimal",
 ]
 ASSUMPTIONS = [
-    "an output check is `test -f F` or `cat F` with expected_output; F lies outside declared inputs and outputs",
+    "an output check is `test -f F` or `cat F` with expected_output; in the theorems F lies outside the declared outputs of the selected targets (family depchecks generates checks on dependency outputs)",
     "builds are atomic per-target steps",
 ]
 
-FAMILIES_QUICK = [("checks", 30, {}), ("checks", 12, {"minimal": True})]
-FAMILIES_THOROUGH = [("checks", 450, {}), ("checks", 180, {"minimal": True})]
+FAMILIES_QUICK = [("checks", 28, {}), ("checks", 11, {"minimal": True}), ("depchecks", 3, {}), ("depchecks", 3, {"minimal": True})]
+FAMILIES_THOROUGH = [("checks", 420, {}), ("checks", 165, {"minimal": True}), ("depchecks", 45, {}), ("depchecks", 45, {"minimal": True})]
 
 # round-c families (generators in _hist2.py)
 FAMILIES2_QUICK = [("post", 8, {}), ("post", 2, {"minimal": True})]
